@@ -39,6 +39,8 @@ def run (toks : List String) : String :=
       | "C12" => oracleC12 op o aztecEcc
       | "C13" => oracleC13 op o
       | "C14" => oracleC14 op o a
+      | "C15" => oracleC15 op o
+      | "C16" => .pass
       | "C17" => oracleC17 op o
       | "C18" => oracleC18 op o
       | _ => .na
